@@ -111,7 +111,11 @@ package file
 //@ ensures err != nil ==> result == nil
 //@ assigns nothing
 
+// (C14, totality: the constructor makes no errors of its own -- it can only pass on a failed Links
+// lookup or, for a childless node, the failure to decode its Data field; in particular a node with
+// links is accepted whatever its recorded sizes say.)
 //@ func file.NewUnixFSFile
+//@ forbids fmt.Errorf errors.New
 //@ ensures no-load: loads == old(loads)
 //@ ensures substrate-preserved: err == nil ==> result != nil && (typeis(result, "*file.singleNodeFile") || typeis(result, "*file.shardNodeFile")) && fileSubstrate(result) == substrate
 //@ ensures err != nil ==> result == nil
